@@ -276,8 +276,13 @@ func (d *Directory) GetOriginalDirectory(trim bool) (cdEntries, endOfDir []byte,
 			end.CDOffset -= uint32(delta)
 		}
 	}
-	_ = binary.Write(&weod, binary.LittleEndian, end64)
-	_ = binary.Write(&weod, binary.LittleEndian, loc64)
+	// the ZIP64 records are only part of the original when the archive had them
+	if end64.Signature != 0 {
+		_ = binary.Write(&weod, binary.LittleEndian, end64)
+	}
+	if loc64.Signature != 0 {
+		_ = binary.Write(&weod, binary.LittleEndian, loc64)
+	}
 	_ = binary.Write(&weod, binary.LittleEndian, end)
 	return wcd.Bytes(), weod.Bytes(), nil
 }
@@ -309,6 +314,10 @@ func (d *Directory) WriteDirectory(wcd, weod io.Writer, forceZip64 bool) error {
 	if wcd != weod {
 		if err := buf.Flush(); err != nil {
 			return err
+		}
+		if weod == nil {
+			// only the entries were asked for
+			return nil
 		}
 		buf.Reset(weod)
 	} else if weod == nil {
